@@ -1,5 +1,6 @@
 import LoraVerif.Gen.UplinkFn
 import LoraVerif.Props.TieA.DynPlan
+import LoraVerif.Props.TieA.DynPlanMask
 import LoraVerif.Props.TieA.Tactics
 import LoraVerif.Model.Mac
 import LoraVerif.Gen.CmdTables
@@ -165,34 +166,69 @@ and `Channel::new_with_dr`) is the model's `handleNewChannel` on every plan with
 mask: join channels and indices ≥ 16 are refused with (false, false); frequency 0 removes the channel,
 clears its mask bit and answers (true, true); otherwise the answer is (frequency in band, every rate of
 min..=max defined and max < 15) and the channel is created and enabled iff both hold.  Abstract: the
-region's parameters (the model's; tied by `tieA_newChannel_*`, C09/C10 tie A) and the two `ChannelMask`
-methods (`MaskOk`).  Supersedes nothing: the guard comparisons `tieA_newChannel_*` stay.  Proved in
+region's parameters (the model's; tied by `tieA_newChannel_*`, C09/C10 tie A).  The two `ChannelMask`
+methods are the regenerated ones (`TieA.DynMask.genMops`; builder R discharged `MaskOk`, `tieA_channel_mask_ops`).  Supersedes nothing: the guard comparisons `tieA_newChannel_*` stay.  Proved in
 `Props/TieA/DynPlan.lean`. -/
-theorem tieA_handle_new_channel (mops : Gen.DynPlanFn.MaskFns) (hm : TieA.Dyn.MaskOk mops) (rs : RegionState)
+theorem tieA_handle_new_channel (rs : RegionState)
     (hfix : rs.id.isFixed = false)
     (p : Gen.DynPlanFn.DynamicChannelPlan) (hplan : rs.plan = .dyn (TieA.Dyn.planOf p)) (hw : TieA.Dyn.PlanWF p)
     (index freq : Int) (dr : Option Gen.DynPlanFn.DataRateRange) (hi : 0 ≤ index) (hf : 0 ≤ freq)
     (hdr : ∀ d, dr = some d → 0 ≤ d._0 ∧ d._0 ≤ 255) :
-    (Gen.DynPlanFn.DynamicChannelPlan.handle_new_channel (TieA.Dyn.regOf rs.id) mops p index freq dr).map
+    (Gen.DynPlanFn.DynamicChannelPlan.handle_new_channel (TieA.Dyn.regOf rs.id) TieA.DynMask.genMops p index freq dr).map
         (fun o => (o.1, { rs with plan := .dyn (TieA.Dyn.planOf o.2) }))
       = (handleNewChannel rs index.toNat freq.toNat (dr.map (fun d => d._0.toNat))).toOption :=
-  TieA.Dyn.tieA_handle_new_channel mops hm rs hfix p hplan hw index freq dr hi hf hdr
+  TieA.Dyn.tieA_handle_new_channel TieA.DynMask.genMops TieA.DynMask.genMops_ok rs hfix p hplan hw index freq dr hi hf hdr
 
 /-- builder N — DlChannelReq, the WHOLE handler: the state-passing translation of the current source of
 `DynamicChannelPlan::channel_dl_update` is the model's `channelDlUpdate`: answer (frequency in band, index
 below 16 ∧ channel enabled ∧ defined ∧ its frequency non-zero); the downlink frequency is stored only when
 both bits are set (`None` when it equals the uplink frequency: RX1 then follows the uplink), otherwise
 nothing changes.  Proved in `Props/TieA/DynPlan.lean`. -/
-theorem tieA_channel_dl_update (mops : Gen.DynPlanFn.MaskFns) (hm : TieA.Dyn.MaskOk mops) (rs : RegionState)
+theorem tieA_channel_dl_update (rs : RegionState)
     (p : Gen.DynPlanFn.DynamicChannelPlan) (hplan : rs.plan = .dyn (TieA.Dyn.planOf p)) (hw : TieA.Dyn.PlanWF p)
     (index freq : Int) (hi : 0 ≤ index) (hf : 0 ≤ freq) :
-    (Gen.DynPlanFn.DynamicChannelPlan.channel_dl_update (TieA.Dyn.regOf rs.id) mops p index freq).map
+    (Gen.DynPlanFn.DynamicChannelPlan.channel_dl_update (TieA.Dyn.regOf rs.id) TieA.DynMask.genMops p index freq).map
         (fun o => (o.1, { rs with plan := .dyn (TieA.Dyn.planOf o.2) }))
       = (channelDlUpdate rs index.toNat freq.toNat).toOption :=
-  TieA.Dyn.tieA_channel_dl_update mops hm rs p hplan hw index freq hi hf
+  TieA.Dyn.tieA_channel_dl_update TieA.DynMask.genMops TieA.DynMask.genMops_ok rs p hplan hw index freq hi hf
 
 
 example : TieA.Dyn.MaskOk TieA.Dyn.exMops := TieA.Dyn.exMops_ok
+
+/-- builder R — the bit operations of `ChannelMask<N>` (types.rs), regenerated from the current source
+(`Gen/ChannelMaskFn.lean`: `channel >> 3`, `1 << (channel & 7)` typed `u8` from its later use, `!flag`, `|=` /
+`&=` through the index, `N * 8 - 1`), are the model's on every mask of octets, for every `usize` index and value:
+`set_channel` = `Mask.setChannel` (one bit set or cleared, out of bounds a panic) and keeps the mask a list of
+octets of the same length; `is_enabled(i).unwrap()` = `Mask.isEnabled` and answers `Ok` for `i ≤ N*8 − 1`;
+`set_bank` = `Mask.setBank`; `get_index` reads byte `index`.  With `genMops_ok` this discharges the hypothesis
+`MaskOk` of builder N's handler theorems, which are stated above for the regenerated operations
+(`TieA.DynMask.genMops`).  Proved in `Props/TieA/ChannelMask.lean`. -/
+theorem tieA_channel_mask_ops (m : Gen.ChannelMaskFn.ChannelMask) (hm : TieA.CMask.Octets m._0) (i : Int) (h0 : 0 ≤ i)
+    (h1 : i ≤ 18446744073709551615) :
+    (∀ set, (Gen.ChannelMaskFn.ChannelMask.set_channel m i set).map (fun m' => TieA.CMask.natsOf m'._0)
+        = (Mask.setChannel (TieA.CMask.natsOf m._0) i.toNat set).toOption) ∧
+    (∀ set m', Gen.ChannelMaskFn.ChannelMask.set_channel m i set = some m' → TieA.CMask.Octets m'._0 ∧ m'._0.length = m._0.length) ∧
+    (0 < m._0.length → TieA.CMask.LenOk m._0.length →
+      (Gen.ChannelMaskFn.ChannelMask.is_enabled m i).bind id = (Mask.isEnabled (TieA.CMask.natsOf m._0) i.toNat).toOption ∧
+      (i.toNat ≤ m._0.length * 8 - 1 → ∃ b, Gen.ChannelMaskFn.ChannelMask.is_enabled m i = some (some b))) ∧
+    (∀ v, 0 ≤ v → (Gen.ChannelMaskFn.ChannelMask.set_bank m i v).map (fun m' => TieA.CMask.natsOf m'._0)
+        = (Mask.setBank (TieA.CMask.natsOf m._0) i.toNat v.toNat).toOption) ∧
+    (Gen.ChannelMaskFn.ChannelMask.get_index m i).map Int.toNat = (TieA.CMask.natsOf m._0)[i.toNat]? ∧
+    TieA.Dyn.MaskOk TieA.DynMask.genMops :=
+  ⟨fun set => TieA.CMask.set_channel_tie m hm i h0 h1 set,
+   fun set m' h => TieA.CMask.set_channel_octets m m' hm i h0 h1 set h,
+   fun hl h64 => TieA.CMask.is_enabled_tie m hm hl h64 i h0 h1,
+   fun v hv => TieA.CMask.set_bank_tie m hm i h0 v hv,
+   TieA.CMask.get_index_tie m hm i h0,
+   TieA.DynMask.genMops_ok⟩
+
+/-- the hypotheses are satisfiable: the all-enabled 9-byte mask, channel 11 -/
+example : TieA.CMask.Octets (⟨List.replicate 9 255⟩ : Gen.ChannelMaskFn.ChannelMask)._0 := by
+  intro x hx
+  have := (List.mem_replicate.mp hx).2
+  omega
+
+#print axioms tieA_channel_mask_ops
 #print axioms tieA_handle_new_channel
 #print axioms tieA_channel_dl_update
 end C08
